@@ -17,7 +17,7 @@ CHECKS = {
                    "observed value changes, and window folds against a reference and a permutation - over thousands (quick) to hundreds of "
                    "thousands (thorough) of seeded sequences. Exploration: it shows the property on the sequences run, not for all.", shards=(4, 16), timeout_s=(300, 1800),
         require=["adds_changing_value", "adds_not_changing_value", "reset_twin_pairs", "window_folds", "hull_checks",
-                 "warmup_mean_checks"],
+                 "warmup_mean_checks", "concurrent_minimum_rounds"],
         rule="PRNG op sequences (add/get/update/reset) over samples in [1,2^50] for each primitive (minimum, single, "
              "exp-average, simple EMA, moving variance, windowless percentile) run in lock-step with a reference fold; "
              "reset-twin pairs (prefix;Reset;suffix vs fresh;suffix) compared bit-for-bit; sample-window folds vs "
@@ -136,7 +136,7 @@ CHECKS = {
                    "classifier's. All option combinations incl. defaults, random RecvMsg/SendMsg sequences, plus a shared interceptor over a real "
                    "DefaultLimiter whose in-flight must return to 0. Exploration over seeded inputs.",
         require=["unary_calls", "stream_ops", "granted_calls_checked", "refused_calls_checked", "send_ops_on_recording_send_limiter",
-                 "recv_ops_on_recording_recv_limiter", "shared_interceptor_calls"],
+                 "recv_ops_on_recording_recv_limiter", "shared_interceptor_calls", "calls_with_a_dead_context"],
         rule="case = unary client/server call (grant/refuse, handler result, classifier result, option subset) or a stream with 1-12 RecvMsg/SendMsg ops "
              "(each with its own grant/error/classifier result) or a shared-interceptor stress; non-trivial = every judged case; distinct = distinct "
              "(option subset, outcomes, op sequence).",
@@ -155,7 +155,7 @@ CHECKS = {
                    "from the goroutine dump. Exploration.",
         require=["strategy_decisions", "partition_decisions", "limit_samples", "limit_drop_samples", "gauge_reads", "forwarded_samples_checked",
                  "lifecycle_states_checked", "frozen_poll_count_checks", "live_poll_observations", "lifecycle_cases/gometrics",
-                 "lifecycle_cases/datadog", "concurrent_lifecycle_cases"],
+                 "lifecycle_cases/datadog", "concurrent_lifecycle_cases", "concurrent_strategy_sample_rounds"],
         rule="case kinds: strategy op sequence (30-80 ops), partitioned strategy op sequence, limit sample sequence (30-90 samples, every limit kind incl. "
              "windowed), queue gauge configuration, registry forwarding (6 metrics of random kind/prefix/id), life-cycle sequence (2-8 ops) and concurrent "
              "life cycle (2-4 goroutines); all judged cases are non-trivial; distinct = distinct (kind, config, op sequence).",
@@ -168,10 +168,13 @@ CHECKS = {
         level_text="A recording core.Limit receives what the limiter/windowed limit delivers; a reference fold of the qualifying completions since the last "
                    "delivery runs beside it. Separate sub-oracles: delivered values differ from fold (min RTT resp. mean RTT, max in-flight, drop flag iff any "
                    "drop in the window), delivery of an unready window, delivery before the previous window's period elapsed, ready window not "
-                   "delivered at a qualifying completion, delivery triggered by an ignored / below-threshold completion. Exploration over seeded histories.",
+                   "delivered at a qualifying completion, delivery triggered by an ignored / below-threshold completion. A third variant completes 2-3 "
+                   "tokens at the same virtual instant from different goroutines (yield at the verif point before the update lock) and keeps the set of "
+                   "candidate pending folds: a delivery must be candidate + non-empty subset of the simultaneous completions with more than windowSize "
+                   "successes. Exploration over seeded histories.",
         require=["default_completions", "default_windows_delivered", "default_nonqualifying_completions", "default_windows_with_drop_before_last_completion",
                  "windowed_samples", "windowed_windows_delivered", "windowed_samples_below_threshold", "windowed_windows_with_drop_before_last_sample",
-                 "windowed_drop_only_windows_delivered"],
+                 "windowed_drop_only_windows_delivered", "simultaneous_rounds", "simultaneous_windows_delivered", "simultaneous_rounds_at_the_readiness_boundary"],
         rule="default: 150-650 acquire/sleep/complete steps with 1-6 holders, outcomes success/ignore/dropped, durations 1ns-8ms, windowSize 10-30, "
              "min/max window 1us-8s, threshold 0-1ms; windowed: 100-600 samples with explicit start/rtt/in-flight/drop; non-trivial = at least two windows "
              "delivered; distinct = distinct (config, length, deliveries).",
